@@ -16,4 +16,15 @@ build() { # tags out
 }
 build verif check
 build verif,tiny check_tiny
+if [ "${1:-}" = "C14" ]; then
+  # the call-site matrix is built WITHOUT the hook tag (the hook would change escape analysis at the call sites)
+  if ! go build -o "$HERE/bin/c14cases" ./cmd/c14cases 2> "$HERE/bin/c14cases.buildlog"; then
+    echo "BUILD-FAILURE: c14cases:" >&2; head -30 "$HERE/bin/c14cases.buildlog" >&2; exit 2
+  fi
+fi
+if [ "${1:-}" = "C19" ]; then
+  if ! go build -race -tags verif -o "$HERE/bin/check_race" ./cmd/check 2> "$HERE/bin/check_race.buildlog"; then
+    echo "BUILD-FAILURE: the race-detector build of the checker failed:" >&2; head -30 "$HERE/bin/check_race.buildlog" >&2; exit 2
+  fi
+fi
 exec "$HERE/bin/check" "$@"
